@@ -182,7 +182,28 @@ class CFG:
         """Labelled (test, polarity) edges that every path ENTRY -> node traverses.
         Unless raw=True the facts are normalised: `not X` is reported as (X, flipped polarity), a true conjunction /
         false disjunction is also reported operand by operand - so `if c: A else: B` and `if not c: B else: A` give the same facts."""
-        return self._dominating_tests_raw(node, no_exc) if raw else normalise_facts(self._dominating_tests_raw(node, no_exc))
+        facts = self._dominating_tests_raw(node, no_exc)
+        if raw:
+            return facts
+        return normalise_facts(self._expand_named_tests(normalise_facts(facts)))
+
+    def _expand_named_tests(self, facts: List[Tuple[ast.expr, bool]]) -> List[Tuple[ast.expr, bool]]:
+        """A test of a local that is assigned exactly once from a comparison / boolean expression / call (`is_violation = thresh < 0` ... `if is_violation:`)
+        is also reported as the fact about that expression: a named boolean is the test it names."""
+        out = list(facts)
+        try:
+            body_nodes = list(self.f.walk())
+        except Exception:
+            return out
+        for t, pol in facts:
+            if not isinstance(t, ast.Name):
+                continue
+            vals = [n.value for n in body_nodes if isinstance(n, (ast.Assign, ast.AnnAssign)) and n.value is not None and
+                    any(isinstance(x, ast.Name) and x.id == t.id for x in (n.targets if isinstance(n, ast.Assign) else [n.target]))]
+            aug = any(isinstance(n, ast.AugAssign) and isinstance(n.target, ast.Name) and n.target.id == t.id for n in body_nodes)
+            if len(vals) == 1 and not aug and isinstance(vals[0], (ast.Compare, ast.BoolOp, ast.UnaryOp, ast.Call)):
+                out.append((vals[0], pol))
+        return out
 
     def _dominating_tests_raw(self, node: object, no_exc: bool = True) -> List[Tuple[ast.expr, bool]]:
         out: List[Tuple[ast.expr, bool]] = []
